@@ -60,6 +60,9 @@ def gen_case(rng, tier):
         out.append(d)
     out[0]['items'].append(['canary', SP('call', func='verif_targets.plain0', args=M([['x', S(1)]]))])
     if rng.random() < 0.5:
+        # code which reads top-level entries by their bare names (what symbols handed to SOME OTHER evaluation context must never shadow)
+        out[0]['items'].append(['peek', SP('eval', code=rng.choice(["canary['n'] + 1", "[canary['plain'], canary['n'] * 2]", "lookup = canary\n(lookup['n'], 'x')"]))])
+    if rng.random() < 0.5:
         # mutable objects built by the leading statements of a multi-statement !eval node: every evaluation builds them anew
         out[0]['items'].append(['acc', SP('eval', code=rng.choice(["acc_v = [1, {'k': [2]}]\nacc_v", "import collections\nd = collections.OrderedDict(k=[2])\n[0, d]",
                                                                     "def mk():\n    return [1, {'k': [2]}]\nstore = mk()\nstore"]))])
@@ -256,6 +259,10 @@ def run(case):
     if view.tree_view(cfg.ayns.source, flags=FLAGS, md=True) != src_before:
         vio.append({'mech': 'evaluation-modifies-source', 'what': f'the kept source tree differs from the merged tree before evaluation: {c19._diff(view.tree_view(cfg.ayns.source, flags=FLAGS, md=True), src_before)}; texts={texts!r}'})
     first = util.typed(c19._plain(cfg), other=_tag)
+    # an unrelated evaluation context with symbols of its own, named like entries of this config, comes and goes in between
+    from awesomeyaml.eval_context import EvalContext as _EC
+    _EC(eval_symbols=dict({str(k): 'SYMBOL_OF_ANOTHER_CONTEXT' for k in cfg.keys() if isinstance(k, str) and k.isidentifier()}, canary={'n': 1000, 'plain': 'other'}))
+    feats.append('unrelated_context_with_same_named_symbols')
     if not vio:
         for i in range(case['reevals']):
             verif_targets.reset()
